@@ -86,6 +86,9 @@ gen_paths = st.one_of(
     st.lists(st.sampled_from(["a", "b" * 255]), min_size=20, max_size=40).map(lambda c: "/".join(c)),
     st.text(alphabet=ALPHA, min_size=5, max_size=12),
 )
+dot_comp = st.sampled_from(["..", "..", ".", "", "", "a", "b", "t", "inc", "canary", "a.h"])
+loader_paths = st.one_of(gen_paths, st.lists(dot_comp, min_size=2, max_size=7).map(lambda c: "/".join(c)))
+loader_probes = st.tuples(st.sampled_from(["include", "include", "include_sys", "inherit", "load_object", "clone_object", "call_other"]), loader_paths, st.just(""), st.just("allow"))
 probes_gen = st.tuples(st.sampled_from(ONE + TWO + LOADERS[:4] + ["read_file", "read_bytes", "file_length", "tail"]),
                        st.one_of(gen_paths, st.sampled_from(["/a", "a", "/b/a", "/scratch/x", "/ab.c", "/.hidden", "/acl.txt"])), gen_paths, st.sampled_from(GEN_POLICIES))
 
@@ -299,7 +302,7 @@ def shard_main(ctx):
         # (2) generated long / dotted paths
         n = {"quick": 300, "thorough": 3000}[ctx.tier]
 
-        @given(st.lists(probes_gen, min_size=20, max_size=60))
+        @given(st.lists(st.one_of(probes_gen, probes_gen, loader_probes), min_size=20, max_size=60))
         def test(batch):
             f, cnt = run_batch(ctx, batch)
             if f:
